@@ -278,6 +278,20 @@ pub fn render_frag(r: &R, fr: FnRef, sel: &str, header: &str) -> Result<(String,
                 None => return Err(format!("lost anchor: let `{}` has no initialiser", name)),
             }
         }
+        "const" => {
+            // const <name>[#n] : the initialiser of a `const NAME: T = …;` item declared inside the function body
+            let (name, ord) = parse_ord(rest);
+            struct CF<'a> { name: String, hits: Vec<&'a syn::ItemConst> }
+            impl<'a> Visit<'a> for CF<'a> {
+                fn visit_item_const(&mut self, c: &'a syn::ItemConst) {
+                    if c.ident == self.name { self.hits.push(c); }
+                }
+            }
+            let mut cf = CF { name: name.clone(), hits: vec![] };
+            cf.visit_block(block);
+            let c = cf.hits.get(ord).ok_or_else(|| format!("lost anchor: const `{}`#{} not found", name, ord))?;
+            &c.expr
+        }
         "letclosure" => {
             // letclosure <name>[#n] : the body of a closure bound by `let <name> = [move] |params| body`
             let (name, ord) = parse_ord(rest);
